@@ -90,8 +90,14 @@ fn text_of_first_token(node: &SyntaxNode) -> TokenText<'_> {
 // }
 
 impl ast::AssignmentStmt {
+    /// The assigned-to identifier, if the LHS is a plain identifier.
+    /// The LHS is the first child expression. Looking for the first child of kind `Identifier`
+    /// instead would return the RHS of `a[i] = b;`.
     pub fn identifier(&self) -> Option<ast::Identifier> {
-        support::child(&self.syntax)
+        match support::children(self.syntax()).next() {
+            Some(ast::Expr::Identifier(ident)) => Some(ident),
+            _ => None,
+        }
     }
 }
 
